@@ -20,7 +20,10 @@ def family(tier, seed):
 
 
 def run_instance(inst):
-    return famcheck.run_item(inst, harness="C01")
+    r = famcheck.run_item(inst, harness="C01", optimize=bool(inst.get("optimize")))
+    if inst.get("optimize"):
+        r["key"] += "@optimised"
+    return r
 
 
 def replay(spec):
@@ -37,9 +40,12 @@ def run(tier, seed, only=None):
         items = [i for i in items if only in i.name or only in i.tags]
     famcheck.describe(chk, items, tier)
     chk.bounds.update({"family": "F1 core set (%d programs) + %d random programs of expression depth <= %d" % (len(core1.all_core()), len(items) - len(core1.all_core()), 3 if tier == "quick" else 4),
-                       "outside": "float->int narrowing, % with a negative operand, uint arithmetic, side effects inside && / || operands, rounding (floats are reals)"})
+                       "builds": "unoptimised for every member; the core set also optimised", "outside": "float->int narrowing, % with a negative operand, uint arithmetic, side effects inside && / || operands, rounding (floats are reals)"})
     famcheck.o1_selftest(chk)
-    results = core.run_pool("vlib.harness.C01", "run_instance", [famcheck.pack(i) for i in items])
+    # what the VM returns is prescribed whatever the optimisation setting: the systematic core set also runs as an optimised build
+    core_n = len(core1.all_core())
+    packed = [famcheck.pack(i) for i in items] + [famcheck.pack(i, optimize=True) for i in items[:core_n] if only is None or True]
+    results = core.run_pool("vlib.harness.C01", "run_instance", packed)
     famcheck.dedupe(results)
     chk.absorb_all(results)
     return chk.finish()
